@@ -175,6 +175,11 @@ def continues : FStatus → Bool
   | .unknown => true
   | _ => false
 
+/-- a re-run request the proxy honours: re-match only from an AfterRoute filter, re-choose only from an AfterChooseHost
+filter — declarative reference -/
+def accepted (p : RPhase) (st : FStatus) : Bool :=
+  (p == .AfterRoute && st == .ReMatchRoute) || (p == .AfterChooseHost && st == .ReChooseHost)
+
 /-- the sender invocations one response makes: filters 0,1,2,… in order, each with its first scripted status, up to
 and including the first one that does not continue — declarative reference -/
 def sendRun : List SFilter → Nat → List SInv
